@@ -28,16 +28,6 @@ def valWord : PyVal → Option Bytes
   | .ndarray c _ _ _ => some c
   | v => if kindOf v < 3 then none else some (fixedWord (kindOf v - 3))
 
-def TyExpr.isArglist : TyExpr → Bool
-  | .arglist _ => true
-  | _ => false
-
-/-- `G₀` plus: a type expression at value level is not a bare argument list -/
-def inG0' (v : PyVal) : Bool :=
-  inG0 v && (match v with
-    | .ty t => !t.isArglist
-    | _ => true)
-
 def WordShape (v : PyVal) (e : Bytes) : Prop :=
   match valWord v with
   | none => 58 ∉ e
@@ -84,12 +74,9 @@ theorem encTy_shape (t : TyExpr) (h : t.isArglist = false) :
 theorem fixedWord_no_colon {i : Nat} (hi : i < 13) : 58 ∉ fixedWord i := (words_ok.2.1 i hi).1
 
 /-- every `G₀` encoding has the shape its kind prescribes -/
-theorem enc_word {v : PyVal} {p : Pre} (hg : inG0' v = true) (h : pre v = .ok p) :
+theorem enc_word {v : PyVal} {p : Pre} (hg : inG0 v = true) (h : pre v = .ok p) :
     ∃ i ps, p = .node i ps ∧ WordShape v (evalPureList H ps) := by
   obtain ⟨_, _, hheads, hnocolon, hseq, hset, hobj, hdict, hty, hfunc, hnp1, hnp2, hnp3⟩ := words_ok
-  unfold inG0' at hg
-  simp only [Bool.and_eq_true] at hg
-  obtain ⟨hg, hg2⟩ := hg
   cases v with
   | sc a =>
     simp only [pre, Except.ok.injEq] at h
@@ -133,7 +120,7 @@ theorem enc_word {v : PyVal} {p : Pre} (hg : inG0' v = true) (h : pre v = .ok p)
     simp only [pre, Except.ok.injEq] at h
     subst h
     refine ⟨_, _, rfl, ?_⟩
-    have hnot : t.isArglist = false := by simpa using hg2
+    have hnot : t.isArglist = false := by simpa [inG0] using hg
     obtain ⟨r, hr⟩ := encTy_shape t hnot
     unfold WordShape valWord
     simp only [kindOf]
@@ -151,7 +138,7 @@ theorem enc_word {v : PyVal} {p : Pre} (hg : inG0' v = true) (h : pre v = .ok p)
       unfold WordShape valWord
       simp only [kindOf]
       refine ⟨fixedWord_no_colon (by omega), HashLits.seqOpen.tail ++ evalPureList H (ps ++ [lit (seqCloseLit .list)]), ?_⟩
-      rw [evalPureList_lit]
+      rw [List.cons_append, evalPureList_lit]
       simp only [seqOpenLit, seqName]
       conv => lhs; rw [hcons]
       simp [fixedWord, List.append_assoc]
@@ -159,7 +146,7 @@ theorem enc_word {v : PyVal} {p : Pre} (hg : inG0' v = true) (h : pre v = .ok p)
       unfold WordShape valWord
       simp only [kindOf]
       refine ⟨fixedWord_no_colon (by omega), HashLits.seqOpen.tail ++ evalPureList H (ps ++ [lit (seqCloseLit .tuple)]), ?_⟩
-      rw [evalPureList_lit]
+      rw [List.cons_append, evalPureList_lit]
       simp only [seqOpenLit, seqName]
       conv => lhs; rw [hcons]
       simp [fixedWord, List.append_assoc]
@@ -172,7 +159,7 @@ theorem enc_word {v : PyVal} {p : Pre} (hg : inG0' v = true) (h : pre v = .ok p)
       unfold WordShape valWord
       simp only [kindOf]
       refine ⟨fixedWord_no_colon (by omega), HashLits.setOpen.tail ++ evalPureList H (s.map (·.2) ++ [lit HashLits.setClose]), ?_⟩
-      rw [evalPureList_lit]
+      rw [List.cons_append, evalPureList_lit]
       simp only [setName]
       conv => lhs; rw [hcons]
       simp [fixedWord, List.append_assoc]
@@ -180,7 +167,7 @@ theorem enc_word {v : PyVal} {p : Pre} (hg : inG0' v = true) (h : pre v = .ok p)
       unfold WordShape valWord
       simp only [kindOf]
       refine ⟨fixedWord_no_colon (by omega), HashLits.setOpen.tail ++ evalPureList H (s.map (·.2) ++ [lit HashLits.setClose]), ?_⟩
-      rw [evalPureList_lit]
+      rw [List.cons_append, evalPureList_lit]
       simp only [setName]
       conv => lhs; rw [hcons]
       simp [fixedWord, List.append_assoc]
@@ -190,7 +177,7 @@ theorem enc_word {v : PyVal} {p : Pre} (hg : inG0' v = true) (h : pre v = .ok p)
     unfold WordShape valWord
     simp only [kindOf]
     refine ⟨fixedWord_no_colon (by omega), (afterWord HashLits.dictOpen).tail ++ evalPureList H (mapContents s ++ [lit HashLits.dictClose]), ?_⟩
-    rw [evalPureList_lit]
+    rw [List.cons_append, evalPureList_lit]
     conv => lhs; rw [word_split HashLits.dictOpen, head_cons_of_head? hdict]
     simp [fixedWord, List.append_assoc]
   | obj i c xs =>
@@ -200,7 +187,7 @@ theorem enc_word {v : PyVal} {p : Pre} (hg : inG0' v = true) (h : pre v = .ok p)
     unfold WordShape valWord
     simp only []
     refine ⟨not_contains_not_mem hg.1.1.1, HashLits.objOpen.tail ++ evalPureList H (mapContents s ++ [lit HashLits.objClose]), ?_⟩
-    rw [evalPureList_lit]
+    rw [List.cons_append, evalPureList_lit]
     conv => lhs; rw [head_cons_of_head? hobj]
     simp [List.append_assoc]
   | func i b code c g =>
@@ -209,7 +196,7 @@ theorem enc_word {v : PyVal} {p : Pre} (hg : inG0' v = true) (h : pre v = .ok p)
     unfold WordShape valWord
     simp only [kindOf]
     refine ⟨fixedWord_no_colon (by omega), (afterWord HashLits.funcOpen).tail ++ evalPureList H (funcBodyParts b cs ++ [lit HashLits.funcClose]), ?_⟩
-    rw [evalPureList_lit]
+    rw [List.cons_append, evalPureList_lit]
     conv => lhs; rw [word_split HashLits.funcOpen, head_cons_of_head? hfunc]
     simp [fixedWord, List.append_assoc]
   | tyFields i f o => simp [inG0] at hg
@@ -225,17 +212,17 @@ theorem kindOf_range {v : PyVal} (hg : inG0 v = true) : kindOf v ≤ 17 ∧ (∀
     refine ⟨by simp only [kindOf]; omega, ?_, ?_⟩
     · intro c hc
       simp only [valWord, kindOf] at hc
-      split at hc
-      · cases hc
-      · right; right
+      by_cases h3 : scalarIdx a < 3
+      · simp only [h3, ↓reduceIte] at hc; cases hc
+      · simp only [h3, ↓reduceIte, Option.some.injEq] at hc
+        right; right
         simp only [kindOf]
-        simp only [Option.some.injEq] at hc
         exact ⟨by omega, by omega, hc.symm⟩
     · intro hc
       simp only [valWord, kindOf] at hc
-      split at hc
-      · simp only [kindOf]; assumption
-      · cases hc
+      by_cases h3 : scalarIdx a < 3
+      · simp only [kindOf]; exact h3
+      · simp only [h3, ↓reduceIte] at hc; cases hc
   | path c f => simp [inG0] at hg
   | ndarray c d s x =>
     simp only [inG0, clsArrOK, Bool.and_eq_true] at hg
@@ -323,7 +310,7 @@ theorem fixedWord_mem {i : Nat} (hi : i < 13) : fixedWord i ∈ fixedWords := by
   exact List.mem_map.mpr ⟨i, List.mem_range.mpr hi, rfl⟩
 
 /-- equal encodings come from the same kind of value -/
-theorem kind_eq_of_enc_eq {v w : PyVal} {p q : Pre} (hv : inG0' v = true) (hw : inG0' w = true)
+theorem kind_eq_of_enc_eq {v w : PyVal} {p q : Pre} (hv : inG0 v = true) (hw : inG0 w = true)
     (h1 : pre v = .ok p) (h2 : pre w = .ok q) :
     ∃ i ps j qs, p = .node i ps ∧ q = .node j qs ∧
       (evalPureList H ps = evalPureList H qs → kindOf v = kindOf w) := by
@@ -331,8 +318,8 @@ theorem kind_eq_of_enc_eq {v w : PyVal} {p q : Pre} (hv : inG0' v = true) (hw : 
   obtain ⟨j, qs, rfl, sw⟩ := enc_word H hw h2
   refine ⟨i, ps, j, qs, rfl, rfl, ?_⟩
   intro he
-  have gv : inG0 v = true := by unfold inG0' at hv; simp only [Bool.and_eq_true] at hv; exact hv.1
-  have gw : inG0 w = true := by unfold inG0' at hw; simp only [Bool.and_eq_true] at hw; exact hw.1
+  have gv : inG0 v = true := hv
+  have gw : inG0 w = true := hw
   obtain ⟨_, kv, nv⟩ := kindOf_range gv
   obtain ⟨_, kw, nw⟩ := kindOf_range gw
   obtain ⟨hinj, hdots, _⟩ := words_ok
